@@ -86,7 +86,7 @@ class Client:
 
         self.__capabilities: dict[str, str] = {}
         self.__respcode_expr = re.compile(rb"(OK|NO|BYE)\s*(.+)?")
-        self.__error_expr = re.compile(rb'(\([\w/-]+\))?\s*(".+")')
+        self.__error_expr = re.compile(rb'(\([^)]+\))?\s*(".*"|\{\d+\+?\})?')
         self.__size_expr = re.compile(rb"\{(\d+)\+?\}")
         self.__active_expr = re.compile(rb"ACTIVE", re.IGNORECASE)
 
@@ -315,26 +315,27 @@ class Client:
         if text corresponds to a size indication, we grab the
         remaining content from the server.
 
-        Otherwise, we try to match an error of the form \(\w+\)?\s*".+"
+        Otherwise, we try to match an error of the form (\(.+\))?\s*(".*")?
 
         On succes, the two public members errcode and errmsg are
         filled with the parsing results.
 
         :param text: the response to parse
         """
-        m = self.__size_expr.match(text)
-        if m is not None:
-            self.errcode = b""
-            self.errmsg = self.__read_block(int(m.group(1)) + 2)
-            return
-
+        if text is None:
+            text = b""
         m = self.__error_expr.match(text)
-        if m is None:
-            raise Error("Bad error message")
         if m.group(1) is not None:
             self.errcode = m.group(1).strip(b"()")
         else:
             self.errcode = b""
+        if m.group(2) is None:
+            self.errmsg = b""
+            return
+        msize = self.__size_expr.match(m.group(2))
+        if msize is not None:
+            self.errmsg = self.__read_block(int(msize.group(1)) + 2)
+            return
         self.errmsg = m.group(2).strip(b'"')
 
     def _plain_authentication(
